@@ -45,6 +45,7 @@ bool exec_forms(ExecCtx &c) {
               if (same) probe_placement(x.getSupport(), y.getSupport());
               c08_note(E_BILIN, x.getSupport().getGrid(), y.getSupport().getGrid());
               uint64_t got = 0;
+              if (!same) sim::g_cur->note = 1;
               libcall(out, [&] {
                 with_plain_bilin(r, s, [&](auto &&bf) {
                   T v = bf(x, y);
@@ -92,6 +93,7 @@ bool exec_forms(ExecCtx &c) {
                 overlap = hi > lo + 1;
               }
               uint64_t got = 0;
+              if (!same || (overlap && !vsame)) sim::g_cur->note = 1;
               libcall(out, [&] {
                 with_factor_bilin(r, v, [&](auto &&bf) {
                   T val = bf(x, y);
@@ -146,6 +148,7 @@ bool exec_forms(ExecCtx &c) {
                 has_int = x.getSupport().numberOfIntervals() > 0;
               }
               uint64_t got = 0;
+              if (has_int && !same) sim::g_cur->note = 1;
               libcall(out, [&] {
                 with_factor_recipe(r, v, [&](auto &&o) {
                   T val = integ::LinearForm{std::move(o)}(x);
